@@ -265,7 +265,7 @@ fn render_loose(f: &F, rng: &mut Rng) -> String {
 }
 
 pub fn random_string(rng: &mut Rng) -> (String, &'static str) {
-    let props: Vec<String> = ["a", "b", "EXa", "V1", "3x", "p_1"].iter().map(|s| s.to_string()).collect();
+    let props: Vec<String> = ["a", "b", "EXa", "V1", "3x", "p_1", "\u{3b2}1", "AGO1", "true1", "V"].iter().map(|s| s.to_string()).collect();
     let mut fopts = FormOpts::plain();
     fopts.bin_ops = ALL_BIN.to_vec();
     fopts.max_size = 10;
@@ -330,7 +330,12 @@ pub fn random_string(rng: &mut Rng) -> (String, &'static str) {
             (s, "token_soup")
         }
         _ => {
-            let alphabet: Vec<char> = "ab xEAUXFGW3V!@{}%():~&|^=<>\\_1in".chars().collect();
+            // (the second alphabet adds other white space, digits, capital letters of constants and non-ASCII letters)
+            let alphabet: Vec<char> = if rng.coin() {
+                "ab xEAUXFGW3V!@{}%():~&|^=<>\\_1in".chars().collect()
+            } else {
+                "ab xEAUXFGW3V!@{}%():~&|^=<>\\_1in\n\t\r\u{a0}\u{3b2}\u{e9}09TFtrue".chars().collect()
+            };
             let n = rng.range(0, 14);
             ((0..n).map(|_| *rng.pick(&alphabet)).collect(), "raw_chars")
         }
